@@ -30,6 +30,11 @@ func main() {
 		runHunt(o)
 	case o.Replay != "":
 		runReplay(o)
+	case strings.HasPrefix(o.Extra, "boundaries="):
+		// go/ast pass: method-selection boundaries of the anchored functions (+ which anchors carry their tag)
+		bs := listBoundaries(strings.TrimPrefix(o.Extra, "boundaries="))
+		writeJSON(filepath.Join(o.Out, "boundaries.json"), bs)
+		fmt.Println(len(bs), "boundaries")
 	case o.Extra == "anchors-only":
 		// evaluate the Go functions at the anchors and nothing else (branch-coverage measurement)
 		as := buildAnchors(o)
